@@ -12,7 +12,9 @@ shares intact:
  (d) substitution: share i replaced by share j != i of the same file, by share i of another file,
      by share i of the same plaintext under another encoding (k,N) and under another segment size;
  (e) lying servers: every placement of <= f answers altered on the wire (any read call);
- (f) every subset of shares carrying one representative damage of each class.
+ (f) every subset of shares carrying one representative damage of each class;
+ (g) no damage, but a fresh reader whose guess of the segment size is too small (10 or 16 against 22):
+     partial reads from every third offset with four lengths.
 Oracle: bytes handed to the consumer are always a prefix of the requested plaintext; the outcome
 is the exact plaintext or an errback; with >= k untouched shares on honest servers the read
 succeeds; every read terminates.
@@ -133,6 +135,11 @@ def run(tier, seed):
     res = common.pmap(lib_imm.explore_chunk, cases, (seed, 0, 0, None, "C02"))
     # several answers per reactor turn (grid.Sched.batch): every third damage case again
     res.merge(common.pmap(lib_imm.explore_chunk, [dict(c, batch=True) for c in cases[::3]], (seed, 0, 0, None, "C02")))
+    # undamaged shares, but a reader whose guess of the segment size (its own default) is smaller than the real
+    # one: partial reads at every offset must still deliver exactly the requested bytes
+    pl_ok = {str(s_): [s_] for s_ in range(3)}
+    gcases = [dict(F1, S=3, placement=pl_ok, guess=gs, groups=[[[off, sz]]]) for gs in (10, 16) for off in range(0, 61, 3) for sz in (None, 1, 16, 30)]
+    res.merge(common.pmap(lib_imm.explore_chunk, gcases, (seed, 0, 0, None, "C02")))
     n0 = res.counts.get("executions", 0)
     # lying servers: every placement of <= f lies over all read calls of a full download
     f_lie = 1 if tier == "quick" else 2
